@@ -25,7 +25,7 @@ def anchors():
     res = {}
     for l in open(os.path.join(ROOT, "properties.jsonl")):
         d = json.loads(l)
-        res[d["id"]] = set(d["anchor"]["files"])
+        res[d["id"]] = set(d["anchors"]["files"])
     return res
 
 
